@@ -1,5 +1,5 @@
 (* C12 model runner: reads "ID<TAB>INPUT" lines, prints "ID<TAB>MODEL<TAB>SPEC".
-   INPUT kinds (see harness/cmd/c12/main.go): isprint | qr LO HI | qs STR | val J VALUE | lit STR PF | orc STR *)
+   INPUT kinds (see harness/cmd/c12/main.go): isprint | qr LO HI | qs STR | val J VALUE | hist N OPS | lit STR PF | orc STR *)
 open Model
 open Zutil
 
@@ -262,6 +262,21 @@ let () =
              let cv = canon_value v in
              let spec = "R=" ^ (if has_hash v then "-" else "D | " ^ cv) ^ " ;; E=" ^ (if j = "1" then cv else "-") in
              (m, spec)
+           | "hist" ->
+             let n = num s in
+             float_tab := []; bad_tok := false;
+             let ops = List.init n (fun _ ->
+                 match next s with
+                 | "D" -> HDel (value s)
+                 | _ -> let k = value s in let v = value s in HSet (k, v)) in
+             let h = hist_apply ops in
+             let text = print is_print h in
+             let content = (match h with
+                 | VHash kvs ->
+                   let kv = List.sort compare (List.map (fun (k, x) -> canon_value k ^ " = " ^ canon_value x) kvs) in
+                   Printf.sprintf "n=%d len=%d {%s}" (List.length kv) (List.length kv) (String.concat " ; " kv)
+                 | _ -> "?") in
+             ("P=" ^ items_str text, "W=" ^ content)
            | "lit" ->
              let sp = str_runes s in
              let pf = next s in
